@@ -1243,6 +1243,10 @@ def run():
                         v.stops = rt.stops
                         routes.append(v)
             unknown = [k for k in B if k.split(" #")[0] not in {r.base_key for r in routes}]
+            flt = os.environ.get("VERIF_C40_ROUTES")          # development aid: only the routes whose key contains one of these |-separated texts
+            if flt:
+                routes = [r for r in routes if any(x in r.key for x in flt.split("|"))]
+                chk.notes.append("restricted to routes matching VERIF_C40_ROUTES=%s" % flt)
             if only_route:
                 routes = [r for r in routes if r.key == only_route]
                 if not routes:
